@@ -400,3 +400,102 @@ Proof.
       apply SC_quiet; auto.
   - rewrite (step_is_gen _ _ Es) in H. apply step_gen_cases, H.
 Qed.
+
+(* --------------------------------------------------------- shape of a step *)
+
+Lemma sess_eta x : x = Sess (s_counter x) (s_in x) (s_out x).
+Proof. destruct x; reflexivity. Qed.
+
+(* what a closure step can change: incoming store, closure table, dying, ack queue *)
+Lemma step_clo_shape s e s' : step_clo s e = Some s' ->
+  exists si cl dy q,
+    s' = BC (conn_no s) (Sess (s_counter (sess s)) si (s_out (sess s))) cl (gproc s) (gdeq s) (gack s) (gcl s)
+            (ph s) (pp s) (dp s) (ap s) (lp s)
+            dy (will s) (cw s) (cpp s) (cps s) (tdeq s) (tpub s) (tsub s) q.
+Proof.
+  intros H. unfold step_clo, guard in H. destruct e; try discriminate H; bm H; inv_some H;
+    unfold clo_enqueue; repeat match goal with |- context [if ?b then _ else _] => destruct b end;
+    dbc s; sfu; destruct xs as [xs1 xs2 xs3]; cbn [sess_with sess_store s_counter s_in s_out]; eauto 10.
+Qed.
+
+(* dequeuer: session, dp, dying, tokens *)
+Lemma step_deq_shape s e s' : step_deq s e = Some s' ->
+  exists se d dy t1 t2 t3,
+    s' = BC (conn_no s) se (clos s) (gproc s) (gdeq s) (gack s) (gcl s) (ph s) (pp s) d (ap s) (lp s)
+            dy (will s) (cw s) (cpp s) (cps s) t1 t2 t3 (ackq s).
+Proof.
+  intros H. unfold step_deq, take_deq in H. destruct (dp s) eqn:Edp; destruct e; try discriminate H; bm H; inv_some H;
+    dbc s; sfu; eauto 10.
+Qed.
+
+(* acker: ap, dying, tokens, ack queue *)
+Lemma step_ack_shape s e s' : step_ack s e = Some s' ->
+  exists a dy t1 t2 t3 q,
+    s' = BC (conn_no s) (sess s) (clos s) (gproc s) (gdeq s) (gack s) (gcl s) (ph s) (pp s) (dp s) a (lp s)
+            dy (will s) (cw s) (cpp s) (cps s) t1 t2 t3 q.
+Proof.
+  intros H. unfold step_ack in H. destruct (ap s) eqn:Eap; destruct e; try discriminate H; bm H; inv_some H;
+    unfold ack_token_back; try match goal with |- context [match ?p with Connect _ => _ | _ => _ end] => destruct p end;
+    dbc s; sfu; eauto 10.
+Qed.
+
+Definition ack_event (e : event) : bool :=
+  match e with ETx _ _ true _ | EDie _ KTransport | EConnClose _ => true | _ => false end.
+
+Lemma step_ack_event s e s' : step_ack s e = Some s' -> ack_event e = true.
+Proof.
+  intros H. unfold step_ack in H. destruct (ap s); destruct e; try discriminate H; try reflexivity.
+  - destruct async; [reflexivity|discriminate H].
+  - destruct k; try discriminate H; reflexivity.
+Qed.
+
+(* cleanup: lp, and (freeze) pp dp ap *)
+Lemma step_cleanup_shape s e s' : step_cleanup s e = Some s' ->
+  exists p d a l,
+    s' = BC (conn_no s) (sess s) (clos s) (gproc s) (gdeq s) (gack s) (gcl s) (ph s) p d a l
+            (dying s) (will s) (cw s) (cpp s) (cps s) (tdeq s) (tpub s) (tsub s) (ackq s)
+    /\ l <> LNone
+    /\ ((p = pp s /\ d = dp s /\ a = ap s /\ lp s <> LNone) \/
+        (lp s = LNone /\ all_stopped s = true /\ p = PDone
+         /\ d = (match dp s with DOff => DOff | _ => DDone end)
+         /\ a = (match ap s with AOff => AOff | _ => ADone end))).
+Proof.
+  intros H. unfold step_cleanup, guard in H. destruct (lp s) eqn:Elp; destruct e; try discriminate H; bm H; inv_some H;
+    repeat match goal with Hx : _ && _ = true |- _ => apply andb_true_iff in Hx as [Hx ?] end;
+    dbc s; sfu; subst; do 4 eexists; (split; [reflexivity|]); (split; [discriminate|]);
+    first [ left; repeat split; discriminate | right; repeat split; assumption ].
+Qed.
+
+Definition cleanup_event (e : event) : bool :=
+  match e with EPub _ _ None | ETerm _ _ | EClosed | EPubRet _ _ | EDie _ KBackend => true | _ => false end.
+
+Lemma step_cleanup_event s e s' : step_cleanup s e = Some s' -> cleanup_event e = true.
+Proof.
+  intros H. unfold step_cleanup in H. destruct (lp s); destruct e; try discriminate H; try reflexivity;
+  try (destruct k; try discriminate H; reflexivity).
+Qed.
+
+(* events of the dequeuer *)
+Definition deq_event (e : event) : bool :=
+  match e with
+  | EDeqCall _ | EDeqRet _ _ | EDeqAck _ | ENextId _ _ | ESave _ Outgoing _ _ | ETx _ _ true _ | EDie _ _ | EConnClose _ => true
+  | _ => false
+  end.
+
+Lemma step_deq_event s e s' : step_deq s e = Some s' -> deq_event e = true.
+Proof.
+  intros H. unfold step_deq in H. destruct (dp s); destruct e; try discriminate H; try reflexivity.
+  - destruct d; [discriminate H|reflexivity].
+  - destruct async; [reflexivity|discriminate H].
+Qed.
+
+(* the processor never changes the connection number, the role table or lp *)
+Lemma step_proc_frame s e s' : step_proc s e = Some s' ->
+  conn_no s' = conn_no s /\ gproc s' = gproc s /\ gdeq s' = gdeq s /\ gack s' = gack s /\ gcl s' = gcl s /\ lp s' = lp s.
+Proof.
+  intros H. unfold step_proc, proc_dispatch, die_p, guard in H.
+  destruct (pp s) eqn:Epp; destruct e; try discriminate H; bm H; inv_some H; inv_helpers; sf;
+    try match goal with |- context [take_deq_if_any ?x] => unfold take_deq_if_any, take_deq; destruct (0 <? tdeq x) end;
+    try match goal with |- context [if ?b then _ else _] => destruct b end;
+    sf; repeat split; reflexivity.
+Qed.
